@@ -113,6 +113,9 @@ HllArray<A>* HllArray<A>::newHll(const void* bytes, size_t len, const A& allocat
 
   const uint8_t lgK = HllUtil<A>::checkLgK(data[hll_constants::LG_K_BYTE]);
   const uint8_t curMin = data[hll_constants::HLL_CUR_MIN_BYTE];
+  if (curMin > hll_constants::VAL_MASK_6) { // register values are 6 bits wide
+    throw std::invalid_argument("Invalid curMin in HLL sketch image: " + std::to_string(curMin));
+  }
 
   const uint32_t arrayBytes = hllArrBytes(tgtHllType, lgK);
   if (len < static_cast<size_t>(hll_constants::HLL_BYTE_ARR_START + arrayBytes)) {
@@ -183,6 +186,9 @@ HllArray<A>* HllArray<A>::newHll(std::istream& is, const A& allocator) {
 
   const uint8_t lgK = HllUtil<A>::checkLgK(listHeader[hll_constants::LG_K_BYTE]);
   const uint8_t curMin = listHeader[hll_constants::HLL_CUR_MIN_BYTE];
+  if (curMin > hll_constants::VAL_MASK_6) { // register values are 6 bits wide
+    throw std::invalid_argument("Invalid curMin in HLL sketch image: " + std::to_string(curMin));
+  }
 
   HllArray* sketch = HllSketchImplFactory<A>::newHll(lgK, tgtHllType, startFullSizeFlag, allocator);
   typedef std::unique_ptr<HllArray<A>, std::function<void(HllSketchImpl<A>*)>> hll_array_ptr;
